@@ -73,6 +73,32 @@ def trace_check(ctx, label, data, o, names):
     if p1.dumps() != before or before != data[:len(before)]:
         agg.violation("trace-changes-bytes", "tracing changed the serialised bytes",
                       diffrun.witness(label, data, names))
+    # the same parsed object decompiled, traced and interpreted again (what `fickling --trace` after an analysis does):
+    # every pass gives the same program and none of them changes what an earlier one returned
+    if o.fick_ok and len(data) <= 30000:
+        try:
+            p2 = f.Pickled.load(data)
+            first = de.sdump(p2.ast)
+            with contextlib.redirect_stdout(io.StringIO()):
+                traced2 = de.sdump(tracing.Trace(f.Interpreter(p2)).run())
+            again = de.sdump(f.Interpreter(p2).to_ast())
+            with contextlib.redirect_stdout(io.StringIO()):
+                traced3 = de.sdump(tracing.Trace(f.Interpreter(p2)).run())
+            cached = de.sdump(p2.ast)
+            agg.count("same_object_passes_compared")
+            passes = {"decompile": first, "trace": traced2, "interpret-again": again, "trace-again": traced3, "cached-decompile": cached}
+            bad = [k for k, v in passes.items() if v != first]
+            if bad or first != de.sdump(o.module):
+                agg.violation("trace-changes-program:same-object",
+                              f"decompile, trace, interpret, trace on one parsed object: passes {bad or ['decompile']} differ from "
+                              f"the first decompile / from a fresh object's",
+                              diffrun.witness(label, data, names, first=first[:300], differing=(passes[bad[0]] if bad else de.sdump(o.module))[:300]))
+        except RecursionError:
+            pass
+        except Exception as e:
+            agg.violation(f"trace-raises:{type(e).__name__}:same-object",
+                          "decompile / trace / interpret again on one parsed object raised although plain decompilation succeeds",
+                          diffrun.witness(label, data, names, error=repr(e)[:300]))
     # the interpreter's own parameters (what the CLI passes for the k-th pickle of a stack) and a
     # partially stepped interpreter: traced == untraced with the same parameters / same starting point
     if not o.fick_ok or len(data) > 30000:       # (tracing copies the memo at every opcode: quadratic on big pickles)
